@@ -19,6 +19,7 @@ MN = "legal winner thank year wave sausage worth useful legal winner thank yello
 
 def cases(rng, tier):
     n = 10 if tier == "quick" else 400
+    yield from _hist_cases(rng, tier)
     for _ in range(n):
         t = rng.choice("01")
         e = bytes(rng.getrandbits(8) for _ in range(16)).hex()
@@ -54,6 +55,25 @@ def nontrivial(line, out):
     return True
 
 
+def _hist_cases(rng, tier):
+    """several requests on ONE shared watch-only wallet object, in non-ascending index order
+    (the full wallet is rebuilt fresh for the comparison by the C13 stateless oracle)"""
+    from .c13 import gen_history
+    for _ in range(3 if tier == "quick" else 60):
+        t = rng.choice("01")
+        e = bytes(rng.getrandbits(8) for _ in range(16)).hex()
+        w = impl.make_wallet("ent:%s:-:-:%s" % (sx(e), t))
+        node = w.master.derive_path([84 + H, H, H])
+        wo = "xkey:" + sx(node.extended_public_key(version=rng.choice(list(PUBV.values()))))
+        ops = []
+        for _ in range(rng.randint(4, 10)):
+            a, b = rng.choice([0, 1]), rng.choice([7, 5, 3, 2, 1, 0])
+            ops.append("bp:" + sx("M/%d/%d" % (a, b)))
+        ops += ["ckd:0:%d" % i for i in rng.sample([9, 4, 2, 0, 1, 3], 4)]
+        ops += gen_history(rng, 12, watch=True)
+        yield "hist %s %s" % (wo, ";".join(ops)), "shared-watch-only-object"
+
+
 def _split(line):
     if " #" in line:
         body, meta = line.split(" #", 1)
@@ -65,6 +85,9 @@ def oracle(line, out):
     tok, meta = _split(line)
     v = ok_val(out)
     op = tok[0]
+    if op == "hist":
+        from .c13 import oracle as o13
+        return o13(line, out)
     if op == "wallet":
         if v is None:
             return "wallet could not be built from an extended public key"
